@@ -31,7 +31,7 @@ def plans(quick):
     ] + [
         dict(family=f, checks=[dict(steps=5, slots=2, force_sets='all', fail=False), dict(steps=5, slots=2)],
              gen=dict(steps=(3 if f == 'chain' else 4), slots=1, force_sets='all'), walks=300, walk_len=14,
-             sim=dict(num=2000, depth=16, force_sets='all'))
+             sim=dict(num=700, depth=16, force_sets='all'))
         for f in ('chain', 'mounts', 'diamond')
     ]
 
